@@ -105,6 +105,7 @@ POLY_CORPUS = [
     {"type": "flat", "pts": "square"},
     {"type": "mesh", "mesh": "octa"},
     {"type": "box", "size": [100.0, 100.0, 100.0]},
+    {"type": "mesh", "mesh": "tetra_off"},       # 13: vertex centroid off the mesh-frame origin (MPR uses center())
 ]
 
 SWEEPS = [
@@ -755,4 +756,12 @@ def penetration_jobs(tier, seed, algo):
             if tier == "quick" and (pi + si) % 2 == 1:      # seed-independent: known findings are listed per scenario
                 continue
             J.append({"family": "%s:%d_%d" % (algo, i, j), "args": {"a": P[i], "b": P[j], "sweep": sw, "a_pose": (pi + si) % 2, "algo": algo}})
+    # small colliders (lower decade of the size domain): absolute tolerances inside the algorithms must not depend on scale
+    small_a, small_b = {"type": "box", "size": [0.125, 0.125, 0.125]}, {"type": "box", "size": [0.0625, 0.125, 0.03125]}
+    for si, sw in enumerate([{"kind": "T1", "u": X, "o": [0.0, 0.015625, 0.03125], "range": 0.1875},
+                             {"kind": "T1", "u": [0.0, 1.0, 1.0], "o": [0.03125, 0.0, 0.0], "R": PR.RGEN, "range": 0.125},
+                             {"kind": "T1", "u": Z, "o": [0.03125, 0.015625, 0.0], "R": PR.RZ345, "range": 0.125}]):
+        if tier == "quick" and si == 2:
+            continue
+        J.append({"family": "%s:small" % algo, "args": {"a": small_a, "b": small_b, "sweep": sw, "a_pose": 0, "algo": algo}})
     return J
